@@ -4,7 +4,7 @@
 PATCH="$1"; shift
 cd /repo || exit 2
 if [ -n "$(git status --porcelain --untracked-files=no)" ]; then echo "/repo is dirty; refusing"; exit 2; fi
-trap 'git -C /repo checkout -- . ; git -C /repo clean -fdq chiritori chiritori-cli 2>/dev/null' EXIT INT TERM
+trap 'git -C /repo checkout -- . ; git -C /repo clean -fdq chiritori chiritori-cli 2>/dev/null; /verif/bin/build cli >/dev/null 2>&1' EXIT INT TERM
 git apply "$PATCH" || { echo "patch does not apply"; exit 2; }
 if [ -z "${NOTEST:-}" ]; then
   if cargo test --offline --workspace >/tmp/mutant_test.log 2>&1; then echo "repo-tests: pass"; else echo "repo-tests: FAIL (mutant not relevant)"; grep -E 'test result|panicked|FAILED' /tmp/mutant_test.log | head; fi
